@@ -1,11 +1,11 @@
 """HOST process: a FRESH /venv python interpreter per (PYTHONHASHSEED, VERIF_VARIANT, shard of cases); Scenic
 from $VERIF_REPO is imported ONCE.  The host moves object addresses (variant-dependent allocation pattern
-before importing Scenic).  Every (program, seed, sub-variant) of its shard then runs in a FORKED CHILD of the
-host (same hash seed and import-time layout as the host, nothing compiled yet): the child picks its own
+before importing Scenic).  Every (program, seed, sub-variant) of its shard then runs one after the other in the
+host (same hash seed; whatever the host compiled and sampled before is part of the history): each run picks its own
 pseudo-random clock (time.perf_counter replaced, so that the WeightedAcceptanceChecker orders requirements
 differently), its own extra allocation pattern, the way scenes are requested (one by one / generateBatch /
 fresh checker / BasicChecker / reversed order / a checker that consumes global randomness) and how much of
-the global RNG the requirement helper burn() consumes.  Output per child: a canonical dump that must be
+the global RNG the requirement helper burn() consumes.  Output per run: a canonical dump that must be
 bit-identical across hosts and sub-variants."""
 import hashlib
 import json
@@ -22,7 +22,7 @@ VARIANT = int(os.environ.get("VERIF_VARIANT", "0"))
 _keep = []
 _r = random.Random(VARIANT * 7919 + 1)
 if VARIANT:
-    for _ in range(_r.randint(1000, 60000)):
+    for _ in range(_r.randint(1000, 30000)):
         k = _r.randint(0, 3)
         _keep.append([None] * _r.randint(1, 40) if k == 0 else (object() if k == 1 else (bytearray(_r.randint(1, 300)) if k == 2 else {i: i for i in range(_r.randint(0, 9))})))
     del _keep[::_r.randint(2, 5)]
@@ -191,6 +191,7 @@ def np_fp():
 def run_case(job, sub):
     """Compile + generate + simulate once (inside a forked child)."""
     mode = sub.get("mode", "sequential")
+    t0 = _real_pc()
     res = dict(name=job["name"], variant=VARIANT, hashseed=os.environ.get("PYTHONHASHSEED"), sub=sub.get("id"))
     random.seed(job["seed"])
     numpy.random.seed(job["seed"] % (2 ** 32))
@@ -261,6 +262,7 @@ def run_case(job, sub):
         res["rejection"] = str(e)[:100]
     res["scenes"] = scenes
     res["consumed"] = consumed
+    res["t"] = _real_pc() - t0
     # what the checker did differently here (diagnostic only; NOT compared)
     try:
         ch = sc.checker
@@ -273,55 +275,52 @@ def run_case(job, sub):
     return res
 
 
-def child(job, sub, wfd):
+class _Timeout(BaseException):
+    pass
+
+
+def one_run(job, sub):
+    """One (program, seed, sub-variant) inside this host.  Runs are sequential in the same interpreter: forking a
+    child per run was measured to be 10-50x slower here (copy-on-write page faults cost ~1 ms each on this VM), and
+    re-running in a process that has already compiled and sampled other programs is itself a history the property
+    quantifies over ("every time", "all numbers of previously generated scenes")."""
     import signal
     import traceback
+
+    def on_alarm(signum, frame):
+        raise _Timeout()
+    signal.signal(signal.SIGALRM, on_alarm)
     signal.alarm(int(sub.get("timeout", 300)))
+    keep = []
     try:
         os.environ["VERIF_C15_BURN"] = str(sub.get("burn", 1))
         os.environ["VERIF_C15_SUB"] = str(sub.get("id", 0))
-        ar = random.Random(sub.get("alloc", 0) * 7919 + 3)
-        keep = []
         if sub.get("alloc"):
-            for _ in range(ar.randint(100, 8000)):       # move the addresses of everything allocated from here on
+            ar = random.Random(sub.get("alloc", 0) * 7919 + 3)
+            for _ in range(ar.randint(100, 4000)):       # move the addresses of everything allocated from here on
                 keep.append(bytearray(ar.randint(1, 400)) if ar.random() < 0.5 else [None] * ar.randint(1, 30))
             del keep[::ar.randint(2, 5)]
-        if sub.get("jitter"):
-            _jr[0] = random.Random(sub["jitter"] * 104729 + 5)
-        try:
-            res = run_case(job, sub)
-        except BaseException as e:          # noqa: report, never hang the host
-            res = dict(crash=(type(e).__name__ + ": " + str(e) + "\n" + traceback.format_exc())[-1500:])
-        data = json.dumps(res).encode()
-    except BaseException as e:
-        data = json.dumps(dict(crash="child: " + repr(e))).encode()
-    with os.fdopen(wfd, "wb") as f:
-        f.write(data)
-    sys.stdout.flush()
-    os._exit(0)
+        _jr[0] = random.Random(sub["jitter"] * 104729 + 5) if sub.get("jitter") else None
+        _clk[0] = 1000.0
+        del LOG[:]
+        _ENABLED[0] = False
+        return run_case(job, sub)
+    except _Timeout:
+        return dict(crash="timeout in " + job["name"])
+    except BaseException as e:          # noqa: report, keep the host alive
+        return dict(crash=(type(e).__name__ + ": " + str(e) + "\n" + traceback.format_exc())[-1500:])
+    finally:
+        signal.alarm(0)
+        _ENABLED[0] = False
+        _jr[0] = None
+        del keep[:]
 
 
 def main():
     payload = json.load(sys.stdin)
     out = []
     for job in payload["tasks"]:
-        row = []
-        for sub in job["subs"]:
-            rfd, wfd = os.pipe()
-            sys.stdout.flush()
-            pid = os.fork()
-            if pid == 0:
-                os.close(rfd)
-                child(job, sub, wfd)
-            os.close(wfd)
-            with os.fdopen(rfd, "rb") as f:
-                data = f.read()
-            _, status = os.waitpid(pid, 0)
-            if data:
-                row.append(json.loads(data))
-            else:
-                row.append(dict(crash=f"child produced no output (wait status {status})"))
-        out.append(row)
+        out.append([one_run(job, sub) for sub in job["subs"]])
     print(json.dumps(dict(results=out)))
 
 
